@@ -361,8 +361,8 @@ def mt_terminator(ctx):
         for bi, b in enumerate(g.blocks):
             for si, s in enumerate(b['stmts']):
                 if s['k'] == 'assign' and s['lhs']['p'] and isinstance(s['lhs']['p'][-1], dict) and s['lhs']['p'][-1].get('n') == 'preset_dict':
-                    rv = s['rv']
-                    if rv['r'] == 'agg' and rv.get('variant_name') == 'None':
+                    val = Prov(g).rvalue(s['rv'], 0)
+                    if val[0] == 'agg' and str(val[1]).endswith('::None'):
                         okp = True
                         ctx.ok('%s:worker-options-no-preset-dict' % g.key, g.loc(bi, si), 'cloned options.preset_dict = None')
         if not okp:
